@@ -1,8 +1,8 @@
 #!/bin/bash
 # Re-run every seeded change through its property's quick check, one serial lane per property, N lanes in parallel.
-# usage: lib/seedall.sh [lanes]   (results in seeded/*/meta.json; log in /verif/.cache/seedall/)
+# usage: lib/seedall.sh [lanes] [skip-regex]   (results in seeded/*/meta.json; logs in /verif/.cache/seedall/)
 cd /verif; mkdir -p .cache/seedall
-lanes=${1:-5}
-for p in $(ls seeded | sed 's/-.*//' | sort -u); do echo $p; done | \
-  xargs -P $lanes -I{} sh -c 'python3 lib/seedtest.py $(ls -d seeded/{}-* | sort -t- -k2 -n) > .cache/seedall/{}.log 2>&1'
-grep -h "missed" .cache/seedall/*.log
+lanes=${1:-5}; skip=${2:-NONE}
+for p in $(ls seeded | sed 's/-.*//' | sort -u | grep -Ev "$skip"); do echo $p; done | \
+  xargs -P $lanes -I{} sh -c 'python3 lib/seedtest.py $(ls -d seeded/{}-* | sort -t- -k2 -n) > .cache/seedall/{}.log 2>&1 < /dev/null'
+grep -H "missed" .cache/seedall/C*.log
